@@ -15,7 +15,10 @@ use crate::{
     config::Config,
     engine::computation_graph::{
         ActiveComputationGuard, QueryKind, QueryStatus, QueryWithID,
-        caller::{CallerInformation, CallerKind, CallerReason, QueryCaller},
+        caller::{
+            CallerInformation, CallerKind, CallerReason, FirewallRepairChain,
+            QueryCaller,
+        },
         computing::{ComputingLockGuard, QueryComputing},
         database::{Snapshot, Timestamp},
     },
@@ -207,8 +210,24 @@ impl<C: Config, Q: Query> Snapshot<C, Q> {
     ) {
         let node_info = self.node_info().await.unwrap();
 
+        // The transitive firewall callees of a firewall that lies on a
+        // dependency cycle contain the firewall itself, or a firewall whose
+        // own transitive firewall callees lead back to it. Each of them is
+        // repaired as `RepairFirewall`, which repairs *its* transitive
+        // firewall callees first, and so on without end. Remember for which
+        // queries this repair is already under way on the way here and do
+        // not start on them again.
+        let chain = Arc::new(FirewallRepairChain::new(
+            *self.query_id(),
+            caller_information.firewall_repair_chain().cloned(),
+        ));
+
         let tfcs = node_info.transitive_firewall_callees();
-        let tfcs = tfcs.iter().copied().collect::<Vec<_>>();
+        let tfcs = tfcs
+            .iter()
+            .copied()
+            .filter(|x| !chain.contains(x))
+            .collect::<Vec<_>>();
 
         let chunk_size = std::cmp::max(
             tfcs.len()
@@ -232,6 +251,7 @@ impl<C: Config, Q: Query> Snapshot<C, Q> {
             let engine = engine.clone();
             let active_computation_guard =
                 caller_information.clone_active_computation_guard();
+            let chain = chain.clone();
 
             join_set.spawn(async move {
                 for tfc in tfc_chunk {
@@ -247,7 +267,8 @@ impl<C: Config, Q: Query> Snapshot<C, Q> {
                                 CallerKind::RepairFirewall,
                                 timestamp,
                                 active_computation_guard.clone(),
-                            ),
+                            )
+                            .with_firewall_repair_chain(chain.clone()),
                         )
                         .await;
                 }
